@@ -23,7 +23,8 @@ open Furiko Furiko.Cron Furiko.JcStatus Furiko.Props.C15
 /-- `t` was covered by the recorded last schedule time in state `s`; `acts` is everything the
 JobConfig controller and others do afterwards; the restart then loads a JobConfig `jc` whose
 `lastScheduled` is the API value at that moment.  No tick ever requests `t` (or anything
-earlier) for `jc` again. -/
+earlier) for `jc` again — in any boot sequence `boot` (ticks interleaved with the informer's
+initial adds of the loaded JobConfigs, `BootOK`). -/
 theorem recorded_time_never_requested_again
     (s : C15.Sys) (acts : List C15.Act) (hwf : s.WF) (t : Int)
     (hrec : optLe (some t) s.api.status.lastScheduled)
@@ -31,12 +32,12 @@ theorem recorded_time_never_requested_again
     (hnd : (jcs.map (fun jc => jc.key)).Nodup)
     (hs : ∀ jc ∈ jcs, ∀ l ∈ jc.sched.exprs, SortedStrict l)
     (h : schedNew jcs cfg dflt now = some pq) {cap : Int} {flushLimit fuel : Nat}
-    (ts : List Int) (hts : List.Pairwise (· ≤ ·) ts)
-    (hdone : (runTicks cap flushLimit fuel ⟨pq, jcs.map (fun jc => (jc.key, jc)), []⟩ ts).2.2 = true)
+    {boot : List CtlAct} (hok : BootOK jcs boot) (hts : List.Pairwise (· ≤ ·) (ticksOf boot))
+    (hdone : (ctlRun Shapes.fixed cap flushLimit fuel (bootCtl jcs pq) boot).2.2 = true)
     {jc : JC} (hjc : jc ∈ jcs)
     (hbridge : jc.lastScheduled = (runSys true s acts).api.status.lastScheduled) :
     ∀ u, (jc.key, u) ∈
-        (runTicks cap flushLimit fuel ⟨pq, jcs.map (fun jc => (jc.key, jc)), []⟩ ts).2.1.flatten →
+        (ctlRun Shapes.fixed cap flushLimit fuel (bootCtl jcs pq) boot).2.1.flatten →
       t < u := by
   intro u hu
   have hmono := (maxima_survive_deletion_occ s acts hwf).1
@@ -57,7 +58,7 @@ theorem recorded_time_never_requested_again
         have h1 : t ≤ c := hrec
         have h2 : c ≤ ls := hmono
         omega
-    have := C04.never_rerequest_run hnd hs h ts hts hdone hjc hbridge u hu
+    have := C04.never_rerequest_run hnd hs h hok hts hdone hjc hbridge u hu
     omega
 
 /-- non-vacuity: the C15 witness history (Job scheduled at 1000 recorded, Job deleted, stale
